@@ -411,6 +411,13 @@ fn run_torn(out: &mut Out, work: &str, seed: u64, thorough: bool) {
 							let mut start = 1u64;
 							let mut seen: std::collections::BTreeSet<(Vec<u8>, u64)> = std::collections::BTreeSet::new();
 							let mut pages = 0;
+							// An entry listed twice in one page sequence: legitimate when the head moved while the sequence ran
+							// (paging is by insertion index; after a reorg to a branch where the output sits further right it is
+							// listed again, and its reported position comes from a look-up of its own, possibly made after the
+							// reorg: the same (commitment, position) twice).  First oracle of increment 4 failed this - a false
+							// alarm of the oracle, repaired: a duplicate is a failure only when the head did NOT move.
+							let head_before = chain_arc.head().map(|t| t.last_block_h).ok();
+							let mut dups: Vec<(String, u64)> = vec![];
 							loop {
 								let page = match foreign.get_unspent_outputs(start, None, 4, Some(false)) {
 									Ok(p) => p,
@@ -436,7 +443,7 @@ fn run_torn(out: &mut Out, work: &str, seed: u64, thorough: bool) {
 										}
 									}
 									if !o.spent && !seen.insert((o.commit.0.to_vec(), o.mmr_index)) {
-										report(format!("page sequence lists ({}, position {}) twice", hex(&o.commit.0[..6]), o.mmr_index));
+										dups.push((hex(&o.commit.0[..6]), o.mmr_index));
 									}
 								}
 								if branches.len() > 1 {
@@ -446,6 +453,14 @@ fn run_torn(out: &mut Out, work: &str, seed: u64, thorough: bool) {
 									break;
 								}
 								start = page.last_retrieved_index + 1;
+							}
+							let head_after = chain_arc.head().map(|t| t.last_block_h).ok();
+							if !dups.is_empty() {
+								if head_before == head_after {
+									report(format!("page sequence lists {:?} twice although the head did not move while it ran", dups));
+								} else {
+									*local.entry("page_sequence_duplicates_across_a_reorg".into()).or_insert(0) += dups.len() as u64;
+								}
 							}
 							*local.entry("page_sequences".into()).or_insert(0) += 1;
 							*local.entry("pages".into()).or_insert(0) += pages;
